@@ -168,6 +168,7 @@ let judge_unit ins outs : verdict =
   if List.mem "PANIC" outs then raise (Fail ("no_panic", "the code under test panicked"));
   let (cfgo, regtoks) = parse_cfg cfgt rx in
   let validated = match cfgo with None -> None | Some c -> validate c in
+  if accepted_wrongly cfgo (zi st0) then raise (Fail ("validate_rejects", "invalid configuration accepted"));
   (match validated, st0 with
    | None, 200 -> raise (Fail ("validate_rejects", "invalid configuration accepted"))
    | Some _, 200 | None, 400 -> ()
@@ -273,6 +274,22 @@ let judge_unit ins outs : verdict =
                   (* after a forced close, or without a context: still never foreign bytes *)
                   if not (ok_prefix b del true) then
                     raise (Fail ("bytes_prefix", "delivered bytes are not a prefix of the written bytes")));
+             (* throttle clause, deterministic part: a body chunk that starts inside a throttle
+                interval goes through a bucket of that throttle's bandwidth *)
+             (match c.regex with
+              | Some rg when s.shaping && s.valid && List.mem_assoc rg !active ->
+                  let thr = (List.assoc rg !active).sh_thr in
+                  let hdr = ref (iz s.hdr_left) and o = ref (iz s.off) in
+                  List.iter (fun (n, cp, _) ->
+                      if !hdr > 0 then hdr := !hdr - n
+                      else begin
+                        if not (ok_chunk_bw thr (zi !o) (zi cp)) then
+                          raise (Fail ("throttle_bandwidth",
+                                       Printf.sprintf "a body chunk at offset %d lies inside a throttle of %s bytes per interval but went through a bucket of capacity %d"
+                                         !o (match throttle_at thr (zi !o) with Some b -> string_of_int (iz b) | None -> "-") cp));
+                        o := !o + n
+                      end) chunks
+              | _ -> ());
              (* model with the grants the real buckets gave *)
              let sizes = List.map (fun (n, _, _) -> n) chunks in
              let grants = if s.shaping && iz s.hdr_left > 0 && sizes <> [] then List.tl sizes else sizes in
@@ -309,7 +326,7 @@ let judge_unit ins outs : verdict =
                           if n <> List.length bs then
                             raise (Dis (Printf.sprintf "chunk-size want=%d got=%d" (List.length bs) n));
                           if gap < !pending then
-                            raise (Fail ("halt_sleeps", Printf.sprintf "pause %dus before a chunk, configured delay %dus" gap !pending));
+                            raise (Dis (Printf.sprintf "pause %dus before a chunk, model delay %dus" gap !pending));
                           pending := 0;
                           if !hdr > 0 then hdr := !hdr - n
                           else (match !cap with
@@ -318,7 +335,7 @@ let judge_unit ins outs : verdict =
                               | _ -> ()))) evs;
              if !rest <> [] then raise (Dis "real-code-wrote-more-chunks");
              if endgap < !pending then
-               raise (Fail ("halt_sleeps", Printf.sprintf "pause %dus at the end of the write, configured delay %dus" endgap !pending));
+               raise (Dis (Printf.sprintf "pause %dus at the end of the write, model delay %dus" endgap !pending));
              c.latp <- None;
              c.st <- Some s';
              (match c.regex with
@@ -424,7 +441,7 @@ let judge_listener ins outs : verdict =
                    | [v; nloc; wcap] ->
                        let mv = conn_valid !l c (chars_of_hex rg) in
                        let rv = (v = "v1") in
-                       if rv && not mv && int_of_nat c.c_est <> int_of_nat (!l).l_modified then
+                       if not (ok_validity !l c (chars_of_hex rg) rv) && rv && int_of_nat c.c_est <> int_of_nat (!l).l_modified then
                          raise (Fail ("applies_to_later_connections", "a configuration accepted later is in force on an older connection"));
                        if rv <> mv && !last_rejected then
                          raise (Fail ("reject_keeps_active", Printf.sprintf "after a rejected configuration a connection accepted earlier is %s for its shape (model: %s)"
@@ -443,22 +460,6 @@ let judge_listener ins outs : verdict =
   VOk (!accepted > 0 && !nacc > 0)
 
 (* ------------------------------ I ---------------------------------- *)
-
-(* microseconds of Sleep/Latency that happen BEFORE the last delivered byte: a
-   delay after the last byte (action exactly at the end of the body) is not
-   visible to a client that stops the clock when the response is complete *)
-let delays_before_last_byte (evs : ev list) : int =
-  let rec go acc pending = function
-    | [] -> acc
-    | (Sleep d | Latency d) :: r -> go acc (pending + 1000 * iz d) r
-    | Emit (_ :: _) :: r -> go (acc + pending) 0 r
-    | _ :: r -> go acc pending r in
-  go 0 0 evs
-
-(* several responses on one keep-alive connection: the model's context is set
-   per response with [respond] from whatever the previous response left, the
-   action counts of each shape are carried from response to response *)
-
 
 let kvs toks = List.filter_map (fun t -> match String.index_opt t ':' with
     | Some i -> Some (String.sub t 0 i, String.sub t (i + 1) (String.length t - i - 1)) | None -> None) toks
@@ -509,9 +510,9 @@ let judge_integration ins outs : verdict =
                             (match first_close sh.sh_acts rs' with Some k -> string_of_int (iz k) | None -> "-")));
            let (s, evs0) = open_ctx true sh.sh_acts sh.sh_thr true rs' (zi hl) (Some lat) O in
            let ((_, evs), r) = write (fun _ -> (huge, huge)) s data in
-           let total = delays_before_last_byte evs in
+           let total = iz (delays_before_last_byte evs) in
            let el = ios (tl1 (tl1 el)) in
-           if el < total then
+           if not (ok_total_delay evs (zi el)) then
              raise (Fail ("halt_delay_total", Printf.sprintf "response took %dus, configured halts and latency add up to %dus" el total));
            if emitted evs <> delivered then raise (Dis "delivered-bytes-differ-from-model");
            VOk (List.exists is_action_ev (evs0 @ evs))
@@ -544,12 +545,12 @@ let judge_keepalive ins outs : verdict =
   let nresp = ref 0 and acted = ref false and dead = ref false and tunnel = ref false in
   (* a response / transfer that matches no shape: every byte, never cut *)
   let unshaped what data delivered cut el =
-    if cut || delivered <> data then
+    if not (ok_unshaped data delivered cut) then
       raise (Fail ("only_matching", Printf.sprintf "%s %d (mode %s) matches no shape but was cut or altered: %d of %d bytes"
                      what !nresp mode (List.length delivered) (List.length data)));
     let (s, _) = respond !prev true [] [] false Z0 Z0 in
     let ((s', evs), _) = write (fun _ -> (huge, huge)) s data in
-    if el < delays_before_last_byte evs then raise (Fail ("halt_delay_total", "latency not observed"));
+    if not (ok_total_delay evs (zi el)) then raise (Fail ("halt_delay_total", "latency not observed"));
     prev := s' in
   let outs = if mode = "mitm" then
       (match outs with
@@ -564,7 +565,7 @@ let judge_keepalive ins outs : verdict =
     match items, outs with
     | [], [gl; m] when starts "gl" gl ->
         let left = ios (tl1 (tl1 gl)) in
-        if left > 0 then
+        if not (ok_no_leak (zi left)) then
           raise (Fail ("close_releases", Printf.sprintf "%d goroutines created for the client connection (mode %s) are still alive after it was %s" left mode how));
         let want = pr_active active (fun k -> List.assoc_opt k !shared) in
         (* after an abort in the middle of a response how far the proxy got is not determined *)
@@ -634,8 +635,8 @@ let judge_keepalive ins outs : verdict =
                               (match first_close acts rs' with Some k -> string_of_int (iz k) | None -> "-")));
              let (s, evs0) = respond !prev true acts sh.sh_thr true rs' (zi hl) in
              let ((s', evs), r) = write (fun _ -> (huge, huge)) s data in
-             let total = delays_before_last_byte evs in
-             if el < total then
+             let total = iz (delays_before_last_byte evs) in
+             if not (ok_total_delay evs (zi el)) then
                raise (Fail ("halt_delay_total", Printf.sprintf "response %d (mode %s) took %dus, configured halts and latency add up to %dus" !nresp mode el total));
              if emitted evs <> delivered then raise (Dis "delivered-bytes-differ-from-model");
              let closed = (match r with RClosed _ -> true | _ -> false) in
@@ -659,9 +660,15 @@ let judge_rate ins outs : verdict =
   let (cfgt, rest) = split_bar ins in
   let p = kvs rest in
   let n = ios (List.assoc "n" p) in
-  let (bw, skip) = match List.filter (fun t -> starts "T:" t) cfgt with
+  let rs = (try ios (List.assoc "rs" p) with Not_found -> 0) in
+  (* the (last) throttle a-b / a- : bandwidth, start, end (-1 = open) *)
+  let (bw, ta, tb) = match List.rev (List.filter (fun t -> starts "T:" t) cfgt) with
     | t :: _ -> (match split ':' t with
-        | [_; by; b] -> (ios b, (match chars_of_hex by with d :: ['-'] -> Char.code d - 48 | _ -> 0))
+        | [_; by; b] ->
+            (match String.split_on_char '-' (string_of_chars (chars_of_hex by)) with
+             | [a; ""] -> (ios b, (if a = "" then 0 else ios a), -1)
+             | [a; e] -> (ios b, (if a = "" then 0 else ios a), ios e)
+             | _ -> raise (Dis "bad-T-bytes"))
         | _ -> raise (Dis "bad-T"))
     | [] -> raise (Dis "rate-without-throttle") in
   (* the shape's shared bucket (max_global_bandwidth), 0 = none *)
@@ -669,10 +676,12 @@ let judge_rate ins outs : verdict =
     | t :: _ -> (match split ':' t with [_; _; g] -> ios g | _ -> 0)
     | [] -> 0 in
   let eff = if global > 0 && global < bw then global else bw in
+  (* body bytes of [rs, rs+n) that lie inside the throttle interval *)
+  let inside = iz (bytes_inside (zi ta) (zi tb) (zi rs) (zi n)) in
   (match outs with
    | s :: _ :: [hang] when s = "st200" && starts "HANG" hang ->
        raise (Fail ("write_returns", Printf.sprintf "concurrent connections on one shape: Conn.Write / the context setup did not return within 10 s (round %s): the bytes written are never delivered" (String.sub hang 4 (String.length hang - 4))))
-   | s :: _ :: rs when s = "st200" ->
+   | s :: _ :: rs_ when s = "st200" ->
        let maxel = ref 0 and total = ref 0 in
        List.iter (fun r ->
            match split ':' r with
@@ -680,15 +689,16 @@ let judge_rate ins outs : verdict =
                if e <> "ok" || ios (tl1 w) <> n || same <> "same1" then
                  raise (Fail ("bytes_prefix", Printf.sprintf "bytes through the throttled write differ from the bytes written (local %d, global %d per interval): %s" bw global r));
                let el = ios (tl1 (tl1 el)) and mx = ios (tl1 (tl1 mx)) in
-               if mx > eff then raise (Fail ("throttle_rate", Printf.sprintf "a single grant of %d bytes exceeds the bandwidth %d" mx eff));
-               if not (ok_rate (zi eff) (zi (n - skip)) (zi el) (zi 150000)) then
-                 raise (Fail ("throttle_rate", Printf.sprintf "%d bytes at %d bytes per drain interval took only %dus" n eff el));
+               if inside = n && not (ok_grant (zi mx) (zi eff)) then
+                 raise (Fail ("throttle_rate", Printf.sprintf "a single grant of %d bytes exceeds the bandwidth %d" mx eff));
+               if not (ok_rate (zi eff) (zi inside) (zi el) (zi 150000)) then
+                 raise (Fail ("throttle_rate", Printf.sprintf "%d bytes of the response lie inside the throttle %d-%d at %d bytes per drain interval but it took only %dus" inside ta tb eff el));
                if el > !maxel then maxel := el;
-               total := !total + n
-           | _ -> raise (Dis "bad-rate-out")) rs;
+               total := !total + inside
+           | _ -> raise (Dis "bad-rate-out")) rs_;
        (* all connections together through the shared bucket *)
-       if global > 0 && not (ok_rate (zi global) (zi (!total - skip * List.length rs)) (zi !maxel) (zi 150000)) then
-         raise (Fail ("throttle_rate", Printf.sprintf "%d bytes of %d connections through the shared bucket of %d bytes per interval took only %dus" !total (List.length rs) global !maxel))
+       if global > 0 && not (ok_rate (zi global) (zi !total) (zi !maxel) (zi 150000)) then
+         raise (Fail ("throttle_rate", Printf.sprintf "%d bytes of %d connections through the shared bucket of %d bytes per interval took only %dus" !total (List.length rs_) global !maxel))
    | _ -> raise (Dis "rate-status"));
   VOk true
 
